@@ -13,9 +13,12 @@
        .k    : unescape_cps (esc_dot k) = k                 (every symbol backslash-escaped, k without newline)
      hence distinct keys are never confused (the escapings are injective).  Member lookup by the unescaped key is
      exact (Json.lookup / String.eqb).  The model of JSON unquoting is coq/Text.v.
-   NOT proved from the text: acceptance of the dot spelling and of bracket names at inner positions (after
-   another step, after .., in a filter operand, in a multi-name selector), and the short escapes \b \t \n \f
-   \r a caller may also use.  These are covered by the correspondence check and the direct oracle: keys from all
+   * the dot spelling likewise: for every non-empty key without control characters dot_path k ($.k with every
+     symbol character backslash-escaped) is accepted and names exactly k (C16_dot_spelling_parses,
+     C16_member_addressable_dot, C16_absent_key_selects_nothing_dot), and the three spellings of a key behave
+     identically on every object (C16_spellings_agree);
+   NOT proved from the text: names at inner positions (after another step, after .., in a filter operand, in a
+   multi-name selector), and the short escapes \b \t \n \f \r a caller may also use.  These are covered by the correspondence check and the direct oracle: keys from all
    planes, three spellings, five path positions, against direct map lookup; the harness also sends key_path
    itself (the driver confirms that the text sent is the extracted key_path of the key). *)
 From JP Require Import Slice Text Codec Json.
@@ -48,7 +51,7 @@ Example C16_example : unescape_single (esc_single [97; 39; 92; 34; 10; 233]) = S
 Proof. vm_compute. reflexivity. Qed.
 
 (* ---------- from the path text (KeyParse.v, KeyAddr.v) ---------- *)
-From JP Require Import Peg Grammar Tree Actions Eval EvalInv1 EvalInv4 EvalTop KeyParse KeyAddr.
+From JP Require Import Peg Grammar Tree Actions Eval EvalInv1 EvalInv4 EvalTop KeyDefs KeyParse KeyAddr.
 Local Open Scope N_scope.
 Open Scope list_scope.
 
@@ -81,6 +84,56 @@ Theorem C16_absent_key_selects_nothing : forall cfg parse_float regex_ok ffun af
               fst (eval_run ffun afun regex_match t (VObj m) st) = OErr e.
 Proof. exact key_absent. Qed.
 Print Assumptions C16_absent_key_selects_nothing.
+
+(* the dot spelling: for every non-empty key without control characters, $.k with every symbol character
+   backslash-escaped (KeyDefs.dot_path) is accepted and builds the single step naming exactly k ... *)
+Theorem C16_dot_spelling_parses : forall cfg parse_float regex_ok c k, forallb dot_char (c :: k) = true ->
+  parse_with cfg parse_float regex_ok jsonpath_grammar (dot_path (c :: k)) = ParseOk (dot_node cfg (c :: k)).
+Proof. exact parse_dot_path. Qed.
+Print Assumptions C16_dot_spelling_parses.
+
+(* ... which returns exactly the member, or nothing when the object does not hold it *)
+Theorem C16_member_addressable_dot : forall cfg parse_float regex_ok ffun afun regex_match,
+  (forall f v w, small v -> ffun f v = Some w -> small w) ->
+  (forall f l w, Forall small l -> afun f l = Some w -> small w) ->
+  forall c k m v st, forallb dot_char (c :: k) = true -> small (VObj m) -> ok st ->
+  lookup m (string_of_bytes (utf8 (c :: k))) = Some v ->
+  exists t, parse_with cfg parse_float regex_ok jsonpath_grammar (dot_path (c :: k)) = ParseOk t /\
+            fst (eval_run ffun afun regex_match t (VObj m) st) = OOk [key_result cfg (string_of_bytes (utf8 (c :: k))) v].
+Proof. exact dot_addressable. Qed.
+Print Assumptions C16_member_addressable_dot.
+Theorem C16_absent_key_selects_nothing_dot : forall cfg parse_float regex_ok ffun afun regex_match,
+  (forall f v w, small v -> ffun f v = Some w -> small w) ->
+  (forall f l w, Forall small l -> afun f l = Some w -> small w) ->
+  forall c k m st, forallb dot_char (c :: k) = true -> small (VObj m) -> ok st ->
+  lookup m (string_of_bytes (utf8 (c :: k))) = None ->
+  exists t e, parse_with cfg parse_float regex_ok jsonpath_grammar (dot_path (c :: k)) = ParseOk t /\
+              fst (eval_run ffun afun regex_match t (VObj m) st) = OErr e.
+Proof. exact dot_absent. Qed.
+Print Assumptions C16_absent_key_selects_nothing_dot.
+
+(* all three spellings of one key behave identically on every object: the same results, or all of them fail *)
+Theorem C16_spellings_agree : forall cfg parse_float regex_ok ffun afun regex_match,
+  (forall f v w, small v -> ffun f v = Some w -> small w) ->
+  (forall f l w, Forall small l -> afun f l = Some w -> small w) ->
+  forall c k m st, forallb dot_char (c :: k) = true -> small (VObj m) -> ok st ->
+  exists t1 t2 t3,
+    parse_with cfg parse_float regex_ok jsonpath_grammar (key_path 34 (c :: k)) = ParseOk t1 /\
+    parse_with cfg parse_float regex_ok jsonpath_grammar (key_path 39 (c :: k)) = ParseOk t2 /\
+    parse_with cfg parse_float regex_ok jsonpath_grammar (dot_path (c :: k)) = ParseOk t3 /\
+    match fst (eval_run ffun afun regex_match t1 (VObj m) st) with
+    | OOk rs => fst (eval_run ffun afun regex_match t2 (VObj m) st) = OOk rs /\ fst (eval_run ffun afun regex_match t3 (VObj m) st) = OOk rs
+    | OErr _ => (exists e, fst (eval_run ffun afun regex_match t2 (VObj m) st) = OErr e) /\
+                (exists e, fst (eval_run ffun afun regex_match t3 (VObj m) st) = OErr e)
+    | OPanic _ => False
+    end.
+Proof. exact spellings_agree. Qed.
+Print Assumptions C16_spellings_agree.
+
+Example C16_dot_path_example :
+  dot_path [97; 46; 98; 32; 233; 92; 128512; 45; 95] = [36; 46; 97; 92; 46; 98; 92; 32; 233; 92; 92; 128512; 45; 95] /\
+  forallb dot_char [97; 46; 98; 32; 233; 92; 128512; 45; 95] = true.
+Proof. split; vm_compute; reflexivity. Qed.
 
 (* non-vacuity: the key  a, double quote, backslash, single quote, LF, e-acute, U+1F600  in both spellings *)
 Example C16_path_example :
